@@ -100,12 +100,23 @@ def body(case):
     out.label("cast-fired" if ok_n else "no-cast-fired", "cast-failed" if bad_n else "no-cast-failed")
     out.sample = f"{show(schema,450)} on {show(doc,200)} -> {ok_n} ok / {bad_n} uncastable"
     before = exact(doc)
+    earlier = None
     try:
         sobj = build.build_schema(schema)
-        vd = sobj.validate(ns.da.Data(doc) if wrap else doc)
+        target = ns.da.Data(doc) if wrap else doc
+        if wrap and len(repr(doc)) % 3 == 0:
+            # the same wrapper object was validated before, by a schema declaring the OTHER casts: every validation
+            # works on a private copy of its own
+            out.label("wrapper-validated-before")
+            other = SchemaT([rl.replace(cast={"bool": "int", "int": "bool"}.get(rl.cast)) for rl in schema.rules])
+            earlier = build.build_schema(other).validate(target)
+            earlier_snap = exact(earlier.cast_data)
+        vd = sobj.validate(target)
     except Exception as e:
         out.exc("no-raise|validate", e)
         return out
+    if earlier is not None and exact(earlier.cast_data) != earlier_snap:
+        out.add("private-copy", "private-copy|earlier-result", "the cast data of an earlier validation of the same wrapper changed when the wrapper was validated again")
     if exact(vd.cast_data) != exact(ref["cast"]):
         out.add("cast-data", "cast-data", f"cast_data={show(vd.cast_data,250)} expected {show(ref['cast'],250)} (input {show(doc,200)})")
     if exact(doc) != before:
@@ -140,6 +151,29 @@ def body(case):
         if exact(doc) != before:
             out.add("input-unchanged", "input-unchanged|rule-test", f"input changed to {show(doc,300)}")
             break
+    # the same schema assembled in two steps: the cast-free rules first (and used once), the cast rules added afterwards
+    # under the empty root - what is cast is decided by the rules the schema holds when it validates
+    free = [rl for rl in schema.rules if not rl.cast]
+    cst = [rl for rl in schema.rules if rl.cast]
+    if cst and not out.violations and len(repr(doc)) % 2:
+        out.label("assembled-in-two-steps")
+        fs = [free[i] for i in model.rule_order(free)]
+        cs = [cst[i] for i in model.rule_order(cst)]
+        ref2 = model.ref_schema_validate(SchemaT(fs + cs), doc)
+        try:
+            s0 = build.build_schema(SchemaT(fs))
+            s0.validate(copy.deepcopy(doc))
+            s0.add_schema(build.build_schema(SchemaT(cs)), ns.d.DataPath())
+            vd2 = s0.validate(doc)
+        except Exception as e:
+            out.exc("no-raise|two-steps", e)
+            return out
+        if exact(vd2.cast_data) != exact(ref2["cast"]):
+            out.add("cast-data", "cast-data|two-steps", f"cast rules added after a first use: cast_data={show(vd2.cast_data,250)} expected {show(ref2['cast'],250)}")
+        elif vd2.is_valid is not ref2["valid"] or vd2.num_failures != ref2["nfail"]:
+            out.add("verdicts", "verdicts|two-steps", f"is_valid={vd2.is_valid} nfail={vd2.num_failures} expected {ref2['valid']} {ref2['nfail']}")
+        if exact(doc) != before:
+            out.add("input-unchanged", "input-unchanged|two-steps", f"input changed to {show(doc,300)}")
     return out
 
 
